@@ -338,6 +338,9 @@ def run(rec):
                     good = True
                     for s in sites:
                         M = s.get_op(n).to_ndarray()
+                        if np.any(s.get_op(n).qtotal != 0):       # a charged operator has no eigenbasis among the charge-conserving tensors
+                            good = False
+                            break
                         w_ = np.linalg.eigvalsh(M) if np.allclose(M, M.conj().T) else None
                         if w_ is None or (len(w_) > 1 and np.min(np.diff(w_)) < 1e-6):
                             good = False
